@@ -26,6 +26,7 @@ EXPLANATION = (
     '(string_view, span, const char*, AttributeValue), except the two named pointers to Resource/InstrumentationScope; '
     'AttributeConverter has an exact-match operator() for every alternative of AttributeValue returning the owned variant. '
     'C04.R7 (setter completeness): in every SpanData setter each parameter reaches a member write on every path.')
+EXPLANATION += ' C04.R8 (callback contract): the copy callbacks handed to ForEachKeyValue by the span, event and link recordables return true on every path (a false stops the iteration and silently truncates the list). C04.R9 (clock agreement): a SteadyTimestamp default comes from steady_clock and a SystemTimestamp default from system_clock, so end - start is a difference of the same clock.'
 NOT_DECIDED = 'that the stored values equal the inputs (value semantics of the copies), ordering of events/links in the containers.'
 
 BORROWING = ('opentelemetry::nostd::string_view', 'std::basic_string_view', 'opentelemetry::nostd::span<', 'std::span<',
